@@ -433,6 +433,59 @@ fn arith_kernels(seed: u64) -> serde_json::Value {
     json!({"found": false, "routine": "arith_kernels", "tried": tried})
 }
 
+// C16: all comparison operations on all operand pairs of small widths (exhaustive for w <= 5, sampled up to 11), signed and unsigned, plus Min/Max
+fn cmp_small_widths(seed: u64) -> serde_json::Value {
+    use ciphercore_base::ops::comparisons::*;
+    use ciphercore_base::ops::min_max::{Max, Min};
+    let mut rng = Rng(seed | 1);
+    let mut tried = 0u64;
+    for w in 1u64..=11 {
+        let n: u64 = if w <= 5 { 1 << w } else { 24 };
+        let vals: Vec<u64> = if w <= 5 { (0..n).collect() } else { let mut v: Vec<u64> = vec![0, 1, (1 << w) - 1, 1 << (w - 1), (1 << (w - 1)) - 1, 2, 8, 12, 16]; while (v.len() as u64) < n { v.push(rng.next() % (1 << w)); } v };
+        let n = vals.len() as u64;
+        // operands as [n,1,w] and [1,n,w] bit arrays: every pair in one evaluation
+        let bits = |v: &Vec<u64>| -> Vec<u8> { let mut o = vec![]; for x in v { for i in 0..w { o.push(((x >> i) & 1) as u8); } } o };
+        let ta = array_type(vec![n, 1, w], BIT);
+        let tb = array_type(vec![1, n, w], BIT);
+        let va = Value::from_flattened_array(&bits(&vals), BIT).unwrap();
+        let vb = va.clone();
+        for signed in [false, true] {
+            if signed && w < 2 { continue; }
+            let ops: Vec<(&str, CustomOperation)> = vec![
+                ("GreaterThan", CustomOperation::new(GreaterThan { signed_comparison: signed })), ("LessThan", CustomOperation::new(LessThan { signed_comparison: signed })),
+                ("GreaterThanEqualTo", CustomOperation::new(GreaterThanEqualTo { signed_comparison: signed })), ("LessThanEqualTo", CustomOperation::new(LessThanEqualTo { signed_comparison: signed })),
+                ("Equal", CustomOperation::new(Equal {})), ("NotEqual", CustomOperation::new(NotEqual {})),
+                ("Min", CustomOperation::new(Min { signed_comparison: signed })), ("Max", CustomOperation::new(Max { signed_comparison: signed }))];
+            for (name, op) in ops {
+                let r = eval_custom(op, vec![ta.clone(), tb.clone()], vec![va.clone(), vb.clone()]);
+                let r = match r { Ok(v) => v, Err(e) => return json!({"found": true, "routine": "cmp_small_widths", "property": "C16", "input": {"op": name, "width": w, "signed": signed}, "observed": format!("error: {}", e)}) };
+                let is_mm = name == "Min" || name == "Max";
+                let rt = if is_mm { array_type(vec![n, n, w], BIT) } else { array_type(vec![n, n], BIT) };
+                let flat = r.to_flattened_array_u64(rt).unwrap();
+                let sv = |x: u64| -> i64 { if signed && (x >> (w - 1)) & 1 == 1 { x as i64 - (1i64 << w) } else { x as i64 } };
+                for (i, x) in vals.iter().enumerate() { for (j, y) in vals.iter().enumerate() {
+                    tried += 1;
+                    let (sx, sy) = (sv(*x), sv(*y));
+                    let idx = i * n as usize + j;
+                    let (want, got): (u64, u64) = if is_mm {
+                        let wv = if name == "Min" { if sx <= sy { *x } else { *y } } else { if sx >= sy { *x } else { *y } };
+                        let mut g = 0u64; for b in 0..w as usize { g |= flat[idx * w as usize + b] << b; }
+                        (wv, g)
+                    } else {
+                        let wv = match name { "GreaterThan" => sx > sy, "LessThan" => sx < sy, "GreaterThanEqualTo" => sx >= sy, "LessThanEqualTo" => sx <= sy, "Equal" => sx == sy, _ => sx != sy };
+                        (wv as u64, flat[idx])
+                    };
+                    if want != got {
+                        return json!({"found": true, "routine": "cmp_small_widths", "property": "C16", "input": {"op": name, "width": w, "signed": signed, "x": x, "y": y},
+                            "expected": want, "observed": got, "what": "comparison custom operation instantiated and evaluated by SimpleEvaluator vs. integer comparison"});
+                    }
+                } }
+            }
+        }
+    }
+    json!({"found": false, "routine": "cmp_small_widths", "tried": tried})
+}
+
 fn main() {
     let args: Vec<String> = std::env::args().collect();
     let seed: u64 = args.get(2).and_then(|s| s.parse().ok()).unwrap_or(0);
@@ -446,6 +499,7 @@ fn main() {
         Some("truncate2k_large_k") => truncate2k_large_k(),
         Some("slice_overflow") => slice_overflow(),
         Some("arith_kernels") => arith_kernels(seed),
+        Some("cmp_small_widths") => cmp_small_widths(seed),
         Some("party_sim_c01") => party_sim::run(seed, "C01"),
         Some("party_sim_c02") => party_sim::run(seed, "C02"),
         Some("party_sim_c03") => party_sim::run(seed, "C03"),
